@@ -60,13 +60,23 @@ def check(ctx, m, cfg, rule="R-SIB"):
                 continue
             n += 1
             inst = {"function": i.src_fn, "callee": i.callee, "at": i.where(), "config": cfg}
-            good = False
-            if Y[0] == "i":
-                d = f.insts[Y[1]]
-                if d.op == "add" and d.ops[1][0] == "c" and d.ops[1][1] == 1 and _strip(f, d.ops[0]) == X:
-                    good = True
-            if X[0] == "c" and Y[0] == "c" and Y[1] == X[1] + 1:
-                good = True
+            # both subscripts as (symbolic base, constant offset): Y = X + 1 whatever the base (i and i+1, h-1 and h, ...)
+            def lin(o, depth=0):
+                o = _strip(f, o)
+                if o[0] == "c":
+                    return (None, ir.cint_signed(o))
+                if o[0] == "i" and depth < 6:
+                    d = f.insts[o[1]]
+                    if d.op in ("add", "sub") and d.ops[1][0] == "c":
+                        b_, c_ = lin(d.ops[0], depth + 1)
+                        k_ = ir.cint_signed(d.ops[1])
+                        return (b_, c_ + (k_ if d.op == "add" else -k_))
+                    if d.op == "add" and d.ops[0][0] == "c":
+                        b_, c_ = lin(d.ops[1], depth + 1)
+                        return (b_, c_ + ir.cint_signed(d.ops[0]))
+                return (tuple(o[:2]), 0)
+            lx, ly = lin(X), lin(Y)
+            good = lx[0] == ly[0] and ly[1] == lx[1] + 1
             if good:
                 ctx.ok(rule, inst, "hole X is paired with bboxes[X + 1]")
             else:
@@ -120,9 +130,75 @@ def _name_of(f, o):
     return "?"
 
 
+def _wrap_select(f, s):
+    """(increment instruction, wrap bound operand) when s is `select (inc == M'), 0, inc` / `select (inc != M'), inc, 0` / uge,ult forms, inc = x + 1"""
+    if s.op != "select" or s.ops[0][0] != "i":
+        return None
+    c = f.insts[s.ops[0][1]]
+    if c.op != "icmp":
+        return None
+    tv, fv = _strip(f, s.ops[1]), _strip(f, s.ops[2])
+    if c.pred in ("eq", "uge", "sge") and tv[0] == "c" and tv[1] == 0 and fv[0] == "i":
+        inc = f.insts[fv[1]]
+    elif c.pred in ("ne", "ult", "slt") and fv[0] == "c" and fv[1] == 0 and tv[0] == "i":
+        inc = f.insts[tv[1]]
+    else:
+        return None
+    if inc.op != "add" or not (inc.ops[1][0] == "c" and inc.ops[1][1] == 1):
+        return None
+    if _strip(f, c.ops[0]) != ["i", inc.id]:
+        return None
+    return inc, c.ops[1]
+
+
 def check_hashmod(ctx, m, cfg, only_fns=None, rule="R-SIB"):
     n = 0
     for f in m.defined():
+        # the same probe written without %:  loc++; if (loc == M') loc = 0;
+        for s in f.all_insts():
+            ws = _wrap_select(f, s)
+            if ws is None:
+                continue
+            inc, bound = ws
+            p = _strip(f, inc.ops[0])
+            if p[0] != "i" or f.insts[p[1]].op not in ("phi", "select"):
+                continue
+            web, todo = set(), [p[1], s.id]
+            while todo:
+                k = todo.pop()
+                if k in web:
+                    continue
+                web.add(k)
+                for o in f.insts[k].ops[(1 if f.insts[k].op == "select" else 0):]:
+                    o = _strip(f, o)
+                    if o[0] == "i" and f.insts[o[1]].op in ("phi", "select") and _wrap_select(f, f.insts[o[1]]) is None:
+                        todo.append(o[1])
+                for u in f.users(("i", k)):
+                    if u.op in ("phi", "select") and ["i", k] in [list(_strip(f, x)[:2]) for x in u.ops[(1 if u.op == "select" else 0):]]:
+                        todo.append(u.id)
+            feeds = []
+            for k in web:
+                for o in f.insts[k].ops[(1 if f.insts[k].op == "select" else 0):]:
+                    o = _strip(f, o)
+                    if not (o[0] == "i" and o[1] in web):
+                        feeds.append(o)
+            inits = [f.insts[x[1]] for x in feeds if x[0] == "i" and f.insts[x[1]].op in ("srem", "urem")]
+            if not inits:
+                continue
+            if not any(u.op == "getelementptr" for k in web for u in f.users(("i", k))):
+                continue
+            src = s.src_fn
+            if only_fns is not None and src not in only_fns:
+                continue
+            for i0 in inits:
+                n += 1
+                inst = {"function": src, "probe_step_at": s.where(), "probe_start_at": i0.where(), "form": "increment and wrap by comparison", "config": cfg}
+                if _same_value(f, bound, i0.ops[1]):
+                    ctx.ok(rule, inst, "probe starts at key %% %s and wraps to 0 when it reaches the same %s" % (_name_of(f, i0.ops[1]), _name_of(f, bound)))
+                else:
+                    ctx.violation(rule, "hashmod:%s:%s" % (src, _name_of(f, i0.ops[1])),
+                                  "%s: the hash probe starts at key %% %s (%s) but wraps around when it reaches %s; slots beyond the starting modulus are never "
+                                  "scanned / may lie outside the table" % (src, _name_of(f, i0.ops[1]), i0.where(), _name_of(f, bound)), s.where(), inst)
         for s in f.all_insts():
             if s.op not in ("srem", "urem"):
                 continue
